@@ -60,7 +60,7 @@ Proof. exact CG.run_txs_solvent_full. Qed.
 Print Assumptions C01_solvency.
 
 (* non-vacuity: a concrete state with a pool; a swap and an add execute and keep the gap at 0 *)
-Definition ex_params := mkCP 0 3000000000000000 [] 0 0 [(0, 7); (1, 7)] [10] 0 false.
+Definition ex_params := mkCP 0 3000000000000000 [] 0 0 [(0, 7); (1, 7)] [10] 0 false [] 0.
 Definition ex_state : clp_state :=
   mkClp (mkBank [(1, [(0, 5000000000000000000000); (1, 7000000000000000000000)]);
                  (10, [(0, 9000000000000000000000); (1, 9000000000000000000000)])] [])
